@@ -960,12 +960,15 @@ def type_tables(jobs):
             # C13: classes against the (static) type i
             t = T[i - 1]
             if t["k"] in ("cls", "exactly", "strict", "hasmethod", "union", "inter") and job.get("static_ok", {}).get(str(i), False):
-                sc, dp = [], []
+                sc, dp, da = [], [], []
                 ov = Ovld()
                 ns = {"TT": a}
-                exec("def mt(x: TT):\n    return 'T'\ndef mo(x: object):\n    return 'O'\n", ns)
+                exec("def mt(x: TT):\n    return 'T'\ndef mo(x: object):\n    return 'O'\ndef md(x: TT = None):\n    return 'T'\n", ns)
                 ov.register(ns["mt"])
                 ov.register(ns["mo"])
+                # the method alone, its parameter optional: a value it does not admit finds no method
+                ov2 = Ovld()
+                ov2.register(ns["md"])
                 for c in range(1, typeuniv.NCLS + 1):
                     cls = R.classes[c]
                     try:
@@ -974,16 +977,19 @@ def type_tables(jobs):
                         sc.append("ERR:" + type(e).__name__)
                     if typeuniv.KINDS[c - 1] == "abc" or typeuniv.KINDS[c - 1].startswith("proto"):
                         dp.append("skip")
+                        da.append("skip")
                         continue
                     inst = {7: 5, 8: True, 9: "s"}.get(c) if c >= 7 else cls()
-                    try:
-                        dp.append(ov(inst))
-                    except TypeError as e:
-                        dp.append("AMB" if str(e).startswith("Ambiguous") else "ERR:" + str(e)[:40])
-                    except Exception as e:  # noqa
-                        dp.append("ERR:" + type(e).__name__)
+                    for f_, acc in ((ov, dp), (ov2, da)):
+                        try:
+                            acc.append(f_(inst))
+                        except TypeError as e:
+                            acc.append("AMB" if str(e).startswith("Ambiguous") else ("O" if str(e).startswith("No method") and f_ is ov2 else "ERR:" + str(e)[:40]))
+                        except Exception as e:  # noqa
+                            acc.append("ERR:" + type(e).__name__)
                 rec["clssub"] = sc
                 rec["dispatch"] = dp
+                rec["dispatch_alone"] = da
             rows[str(i)] = rec
         out.append({"id": job["id"], "rows": rows})
     return out
